@@ -320,6 +320,9 @@ def mutate_cell(obj) -> str:
             return 'dict value'
         obj.pop(k, None)
         return 'dict pop'
+    if isinstance(obj, EntityFixup):
+        obj['added_var'] = 'av'
+        return 'fixup add'
     # a plain object: change its first scalar attribute that is not an ID
     for f in fields_of(obj):
         if f in ('id', 'map', 'vmf', '_folded_name', '_matcher'):
@@ -488,7 +491,13 @@ def apply_mut(c: Case, mut: dict) -> tuple:
     tgt = c.cp if mut['side'] == 'c' else c.obj
     try:
         if mut['op'] == 'cell':
-            return mutate_cell(resolve(tgt, mut['path'])), ''
+            try:
+                cell = resolve(tgt, mut['path'])
+                if isinstance(cell, IMMUTABLE):
+                    raise LookupError
+            except (AttributeError, LookupError, TypeError, ValueError):
+                return '', 'NoSuchCell'
+            return mutate_cell(cell), ''
         method_mutation(c.cls, tgt, mut['meth'])
         return mut['meth'], ''
     except Exception as e:    # the record carries it; TLC reports mutate.raised
